@@ -64,9 +64,23 @@ func workerMain(kind string, args []string) {
 
 func hsmsWorker(w *iso.Worker) {
 	var m0, m1 runtime.MemStats
+	var stale []byte // one receive buffer reused for the "spare capacity" presentation
 	for i, j := range w.Jobs {
 		w.Begin(i)
 		in := j.Input
+		if i%4 == 1 && len(in) <= 4096 {
+			// every fourth small input is the front of a large receive buffer that holds stale data:
+			// what is allocated must depend on the length of the slice, not on its capacity
+			if stale == nil {
+				stale = make([]byte, 4<<20)
+				for k := range stale {
+					stale[k] = 0x01
+				}
+			}
+			copy(stale, in)
+			in = stale[:len(in)]
+			w.Classes["presented-with-4MiB-spare-capacity"]++
+		}
 		escaped := ""
 		ok := false
 		runtime.ReadMemStats(&m0)
